@@ -35,6 +35,8 @@ def load_known(pid: str) -> dict[str, dict]:
         files += sorted(d.glob("*.json"))
     for fp in files:
         data = json.loads(fp.read_text())
+        if not isinstance(data, dict):
+            continue
         for f in data.get("findings", []):
             if f.get("property") == pid:
                 out[f["key"]] = f
